@@ -273,10 +273,20 @@ func (c *c08Run) runChain(chain []int, acct *account.Account, rng *vio.RNG, grid
 		}
 	}
 	full("end-of-chain")
-	lg.Close()
-	lg, _ = openLedger(dir, acct)
+	// a ledger whose hash store is damaged may fail to close or to reopen: that must not take the driver down
+	// (the violations found so far have to be reported), and a ledger that cannot be reopened is itself reported
+	if p := vio.Safe(func() { lg.Close() }); p != "" {
+		c.violate("ledger-close-panic", obj{"panic": p})
+	}
+	lg = nil
+	if p := vio.Safe(func() { lg, _ = openLedger(dir, acct) }); p != "" || lg == nil {
+		c.violate("ledger-reopen-failed", obj{"panic": p})
+		return
+	}
 	full("after-reopen")
-	lg.Close()
+	if p := vio.Safe(func() { lg.Close() }); p != "" {
+		c.violate("ledger-close-panic", obj{"panic": p})
+	}
 }
 
 func c08(args []string) {
